@@ -69,8 +69,19 @@ def check_trainer(e, trainer, cells_model, label, prog, step):
     e.oblige(label + ":cell-listing", names == sorted(cells_model), got=str(names), want=str(sorted(cells_model)), program=prog, step=step)
     for cname, mdl in cells_model.items():
         mons = dict(trainer.named_monitors_of(cname))
-        e.oblige(label + ":monitor-listing", sorted(mons) == ["spike_post", "spike_pre", "trace_post", "trace_pre"], got=str(sorted(mons)), cell=cname, program=prog, step=step)
+        want_names = ["spike_post", "spike_pre", "trace_post", "trace_pre"] + (["user"] if mdl.get("user") is not None else [])
+        e.oblige(label + ":monitor-listing", sorted(mons) == sorted(want_names), got=str(sorted(mons)), cell=cname, program=prog, step=step)
         exp = expected_monitors(e, mdl["obs_post"], mdl["obs_pre"])
+        if mdl.get("user") is not None:
+            # user-added monitor: cumulative trace (tc 5, amplitude 1) of the post-synaptic spikes over the armed steps since it was added
+            obs = mdl["user"]
+            exp["user"] = None
+            if obs:
+                Bn, nn = obs[0].shape
+                tr = np.empty((Bn, nn), dtype=object)
+                for pos in np.ndindex(Bn, nn):
+                    tr[pos] = trace_closed([num(o[pos]) for o in obs], K(math.exp(-DT / 5.0)), K(1.0), "cumulative")
+                exp["user"] = tr
         for mname, mon in mons.items():
             got = mon.peek()
             if exp[mname] is None:
@@ -101,7 +112,7 @@ def h_single(e, cfg):
         tr.register_cell(c, cells[c])
         model[c] = dict(obs_post=shared_post, obs_pre=[])
     t_train, l_train = True, True
-    ops = [o for o in OPS if ("B" not in o or "B" in cells)]
+    ops = [o for o in OPS if ("B" not in o or "B" in cells)] + (["add M", "del M"] if cfg.get("user") else [])
     prog = []
     nstep = 0
     plan = list(cfg.get("prefix", [])) + [None] * cfg["free"]
@@ -124,6 +135,8 @@ def h_single(e, cfg):
                 shared_post.append(e.read(post))
                 for c in model:
                     model[c]["obs_pre"].append(pres[c])
+                    if model[c].get("user") is not None:
+                        model[c]["user"].append(e.read(post))
         elif op == "t.eval":
             tr.eval(); t_train = False
         elif op == "t.train":
@@ -136,7 +149,19 @@ def h_single(e, cfg):
             tr.clear()
             del shared_post[:]
             for c in model:
-                model[c] = dict(obs_post=shared_post, obs_pre=[])
+                model[c] = dict(obs_post=shared_post, obs_pre=[], user=([] if model[c].get("user") is not None else None))
+        elif op == "add M":
+            # add_monitor on a registered cell: a user monitor with its own name, reducer and tags (never aliased with the trainer's)
+            if "A" in model and model["A"].get("user") is None:
+                import inferno.observe as ob
+                tr.add_monitor("A", "user", "neuron.spike", ob.StateMonitor.partialconstructor(
+                    reducer=ob.CumulativeTraceReducer(DT, 5.0, amplitude=1.0, target=True, duration=0.0, inclusive=True),
+                    as_prehook=False, train_update=True, eval_update=False, prepend=True), False, dt=DT, tc=5.0, purpose="user")
+                model["A"]["user"] = []
+        elif op == "del M":
+            if "A" in model and model["A"].get("user") is not None:
+                tr.del_monitor("A", "user")
+                model["A"]["user"] = None
         elif op.startswith("del "):
             c = op[-1]
             if c in model:
@@ -245,6 +270,9 @@ def checks(tier):
         for pf in prefixes:
             free = (5 - len(pf)) if th else ((3 if layer == "serial" else 2) if pf else 3)
             single.append(dict(layer=layer, initial=initial, prefix=pf, free=free))
+        # user-added monitors (add_monitor / del_monitor) interleaved with everything else
+        for pf in ([], ["add M"], ["add M", "step"], ["step", "add M"]):
+            single.append(dict(layer=layer, initial=initial, prefix=pf, free=(3 if th else 2), user=True))
         # repeated arm/disarm cycles (hook handles are re-created every time) before the free part
         for pf in (["t.eval", "t.train"], ["t.eval", "t.train", "t.eval", "t.train"], ["L.eval", "L.train", "t.eval", "t.train"], ["step", "t.eval", "t.train", "t.eval"]):
             single.append(dict(layer=layer, initial=initial, prefix=pf, free=(3 if th else 2)))
@@ -255,11 +283,11 @@ def checks(tier):
 
 
 BOUNDS = {
-    "quick": {"programs": "all programs of 3-4 operations (after the fixed prefixes [], [step], [step, step], [step, del A], [t.eval, step]; 2 operations after the arm/disarm-cycle prefixes [t.eval, t.train], [t.eval, t.train, t.eval, t.train], [L.eval, L.train, t.eval, t.train], [step, t.eval, t.train, t.eval]) over {layer step, trainer train/eval, layer train/eval, "
+    "quick": {"programs": "all programs of 3-4 operations (after the fixed prefixes [], [step], [step, step], [step, del A], [t.eval, step]; 2 operations after the arm/disarm-cycle prefixes [t.eval, t.train], [t.eval, t.train, t.eval, t.train], [L.eval, L.train, t.eval, t.train], [step, t.eval, t.train, t.eval]) over {layer step, trainer train/eval, layer train/eval, add_monitor/del_monitor of a user monitor (in the configurations that enable it), "
                           "trainer clear, del/register cell A/B, trainer step}; two-trainer programs of 4 operations over {step, t2 register/del/eval/train/clear, drop t2}",
               "layers": "Serial (1 cell) and a Biclique whose two cells share the post-synaptic group", "trainers": "STDP (one or two, same or different hyper-parameters), MSTDPET",
               "observations": "fresh symbolic spikes each step; monitor contents compared with the closed-form trace over exactly the armed steps"},
     "thorough": {"programs": "5 operations"},
 }
-OUTSIDE = ["add_monitor/del_monitor with user-defined monitors", "homeostasis and kernel trainers (same CellTrainer machinery)", "program quantifier = exhaustive enumeration up to the bound",
+OUTSIDE = ["user-defined monitors other than one cumulative-trace monitor on cell A", "homeostasis and kernel trainers (same CellTrainer machinery)", "program quantifier = exhaustive enumeration up to the bound",
            "garbage-collection timing is executed under CPython"]
